@@ -1554,7 +1554,7 @@ pub fn info_roundtrip(doc: &str) -> Outcome {
 // ------------------------------------------------------------------------------------------------
 // C02: ill-formed input is never reported as a completely parsed document (error, or unconsumed input the caller can test)
 
-pub const ILL_FORMED: [&str; 42] = [
+pub const ILL_FORMED: [&str; 43] = [
     "<a></b>", "<a><b></a></b>", "<a>", "<a><b></b>", "</a>", "<a/><b/>", "<a/>x", "x<a/>", "", "   ",
     "<a b='1' b='2'/>", "<a b=1/>", "<a b/>", "<a b='<'/>", "<a b='&'/>", "<a b='&#0;'/>", "<a b='&#xD800;'/>", "<a b='&#xFFFE;'/>", "<a b='1'c='2'/>",
     "<a>&</a>", "<a>&#0;</a>", "<a>&#x110000;</a>", "<a>&nope;</a>", "<a>]]></a>", "<a><!-- -- --></a>", "<a><!--x---></a>", "<a><![CDATA[x]]</a>",
